@@ -151,6 +151,7 @@ type FnCtx struct {
 	callN    map[string]int
 	recFns   map[string]bool
 	curStmtPos token.Pos
+	noNaming int
 	siteN    map[string]int
 	boxed    map[types.Object]bool // locals whose address is taken: they live in the heap
 	recInfos map[string]*recInfo
@@ -221,6 +222,11 @@ func (c *FnCtx) nameBool(prefix, term string) string {
 	if term == "true" || term == "false" || !strings.HasPrefix(term, "(") {
 		return term
 	}
+	if c.noNaming > 0 {
+		// under a binder (quantifier body, recursive spec function, lemma): a global
+		// definition would mention the bound variable; keep the term itself
+		return term
+	}
 	n := c.fresh(prefix)
 	c.declConst(n, "Bool")
 	c.facts = append(c.facts, eq(n, term))
@@ -229,7 +235,7 @@ func (c *FnCtx) nameBool(prefix, term string) string {
 
 // nameTerm introduces a definition for big terms.
 func (c *FnCtx) nameTerm(prefix, term, sort string) string {
-	if len(term) < 200 {
+	if len(term) < 200 || c.noNaming > 0 {
 		return term
 	}
 	n := c.fresh(prefix)
